@@ -933,10 +933,7 @@ func init() {
 				}
 			}
 		}
-		depth := 4
-		if th {
-			depth = 5
-		}
+		depth := 5 // both tiers (512 items of 64 sequences, 2.5 s each)
 		// 64 sequences per item (a worker process serves one item: thousands of Badger instances opened and closed in one
 		// process keep gigabytes resident)
 		for a := 0; a < 8; a++ {
